@@ -61,9 +61,11 @@ class Ctx:
     pass
 
 
-def build(run, scr):
-    ms = mcheck.MSession(run, scr)
-    dump = ms.load_mir()
+def build(run, scr, ms=None):
+    if ms is None:
+        ms = mcheck.MSession(run, scr)
+        ms.load_mir()
+    dump = ms.dump
     decls = ms.decls
     sem = smt.RealSem()
     c = Ctx()
@@ -558,7 +560,8 @@ def check(run):
         r = nat.call("scale_scenario", *args)
         run.traces_validated += 1
         if ("error" in r or r.get("problems")) and not run.violations:
-            run.inconclusive.append("the solver found no violation but a concrete parsed recipe scales wrongly: %s" % str(r)[:300])
+            run.violation("validation-vector scale_scenario", "a concrete parsed recipe scales wrongly: %s" % "; ".join(r.get("problems", [str(r)])[:3])[:600],
+                          dict(engine="validation-vector", replay="scale_scenario", args=list(args)))
     run.not_covered += [
         "ScalableRecipe::scale's iterator plumbing (map/unzip over the component vectors) is decided only through the per-component functions it calls",
         "the fit step after scaling: amount preservation of fit/convert is C09's claim (composition), fraction fitting is C12's",
